@@ -84,7 +84,7 @@ def sourcefileLoopC (cap : Nat) :
     | .start n a =>
       if localName n = sLine then
         withCost (lineAttrsCost a) <|
-        match lineAttrs [] a {} with
+        match lineAttrs a {} with
         | .ok la =>
           (match commitLine cap acc la with
            | .ok acc' => withCost (commitCost la) (sourcefileLoopC cap fuel r acc')
@@ -255,7 +255,7 @@ def attrCount (evs : List XmlEvent) : Nat := (evs.map fun e => (evAttrs e).lengt
 def lineAlloc : XmlEvent → Nat
   | .start n a =>
     if localName n = sLine then
-      match lineAttrs [] a {} with
+      match lineAttrs a {} with
       | .ok la => (commitCost la).alloc
       | .error _ => 0
     else 0
